@@ -210,10 +210,10 @@ func checkResources(base int, dev map[int]int) {
 	if string(j1) != string(j2) {
 		fail("resources-oci-nri-oci", "OCI->NRI->OCI changed the resources (%s):\n  before: %s\n  after:  %s", desc(base, dev), j1, j2)
 	}
-	// Copy: equal on memory, CPU, hugepages, unified, pids and classes
+	// Copy: equal on memory, CPU, hugepages, unified, pids and classes - and on the device cgroup rules
+	// (outside C14's list, but "the runtime-requested resources" of C04/C05 pass through Copy: defect 18)
 	c := r.Copy()
 	a, b := normRes(r, false), normRes(c, false)
-	a.Devices, b.Devices = nil, nil
 	if !proto.Equal(a, b) {
 		fail("copy-not-equal|"+diffFields(a, b), "Copy() differs from the original (%s):\n  original: %v\n  copy:     %v", desc(base, dev), a, b)
 	}
@@ -432,7 +432,6 @@ func engineResources(thorough bool) {
 				cnt++
 				c := r.Copy()
 				a, b := normRes(r, false), normRes(c, false)
-				a.Devices, b.Devices = nil, nil // the statement lists memory, CPU, hugepages, unified, pids and classes
 				if !proto.Equal(a, b) {
 					fail("copy-not-equal|sections|"+diffFields(a, b), "Copy() of a resource set with only the sections %v present (state %d) differs:\n  original: %v\n  copy:     %v", present, st, r, c)
 				}
